@@ -2,7 +2,10 @@
 
 Tie: descriptors regenerated from the Go source (harness gen-nas) -> Properties/C09.v re-checked (layout of every message
 against Spec/TS24501Tables.v); constructors of nasTestpacket run for real and read by the Coq reference parser;
-messages built by the Coq reference encoder run through the real PlainNasDecode."""
+messages built by the Coq reference encoder run through the real PlainNasDecode.
+Sub-field layer (inside an IE value): accessor descriptors regenerated from nasType (harness gen-nasacc -> Gen/NasAccessors.v)
+checked against the field table Spec/TS24501Fields.v (Properties/C09.v c09_accessors_*); the REAL getters/setters called
+through reflection (harness nasacc) against model and table on the same inputs (stream "accessors")."""
 import json, re
 from .. import common as C
 from .. import gen
@@ -341,25 +344,214 @@ class RefEnc(Stream):
         return None
 
 
+# ----------------------------------------------------------------------------- accessors (sub-fields inside an IE value)
+ACC_REQ = ["String", "NasAcc", "NasAccessors", "TS24501Fields", "NasAccConform", "NasAccCheck"]
+ACC_HDR = ("From Coq Require Import NArith String List.\nImport ListNotations.\n"
+           + "".join("Require Import %s.\n" % r for r in ACC_REQ if r != "String") + "Open Scope N_scope.\n")
+ACC_KEY = "C09:acc:SetAMFSetID-clears-AMFPointer"
+ACC_DEVIATIONS = {("AdditionalGUTI", "AMF Set ID"): ACC_KEY, ("GUTI5G", "AMF Set ID"): ACC_KEY, ("TMSI5GS", "AMF Set ID"): ACC_KEY}
+ACC_TABLE = {}
+
+
+def load_acc_table():
+    """the field table of Spec/TS24501Fields.v joined with the Go containers of Gen/NasAccessors.v, as Coq prints it:
+    {type: {"container": (kind, n), "fields": [{"kind": (code, a, b, c), "get": .., "set": ..}]}} in table order"""
+    if ACC_TABLE:
+        return ACC_TABLE
+    rc, out = C.coq_eval(ACC_HDR + "Open Scope string_scope.\nDefinition fd := Eval vm_compute in fields_dump.\nPrint fd.\n", timeout=300)
+    if rc != 0:
+        raise RuntimeError("cannot evaluate fields_dump: " + out[-1500:])
+    flat = " ".join(out.split())
+    row = re.compile(r'\("([^"]*)"(?:%string)?, \[([^\]]*)\](?:%N)?, \[([^\]]*)\](?:%N)?, "([^"]*)"(?:%string)?, "([^"]*)"(?:%string)?\)')
+    for ty, cc, kc, g, st in row.findall(flat):
+        cc, kc = nums(cc), nums(kc)
+        t = ACC_TABLE.setdefault(ty, {"container": (["octet", "array", "buffer", "none"][cc[0]], cc[1]), "fields": []})
+        t["fields"].append({"kind": tuple(kc), "get": g, "set": st})
+    if not ACC_TABLE:
+        raise RuntimeError("cannot parse fields_dump: " + flat[:800])
+    return ACC_TABLE
+
+
+def acc_need(kind):
+    """octets a value must have for the field to lie inside it"""
+    code, a, b, _ = kind
+    return {0: a + 1, 1: a + 2, 2: a + b, 3: a}[code]
+
+
+def acc_table_apply(st, kind, v):
+    """store v into the field as the table says (python copy of Spec/TS24501Fields.spec_set, used ONLY to recognise the recorded
+    deviation among failing cases -- the verdict itself comes from Coq)"""
+    code, a, b, _ = kind
+    st = bytearray(st)
+    if code == 0:
+        w = b - _ + 1
+        st[a] = (st[a] & ~(((1 << w) - 1) << (_ - 1)) & 0xFF) | ((v & ((1 << w) - 1)) << (_ - 1))
+    elif code == 1:
+        X = ((st[a] << 8 | st[a + 1]) & ((1 << (16 - b)) - 1)) | (v << (16 - b))
+        st[a], st[a + 1] = X >> 8, X & 0xFF
+    elif code == 2:
+        st[a:a + b] = v
+    else:
+        st[a:] = v
+    return bytes(st)
+
+
+class Acc(Stream):
+    """the REAL accessor methods of nasType (through reflection) against the model (descriptors regenerated by gen-nasacc) and
+    against the field table of TS 24.501 clause 9: per tabulated field, setter then getter on an all-zero, an all-ones and a
+    random value with boundary and random arguments (neighbouring fields therefore hold DISTINCT values: 0x00 next to 0xff);
+    per type, every setter of the table in table order and in reverse order with pairwise different arguments, then every
+    getter; arguments wider than the field (the setter must mask them) and buffers shorter than the field (must panic, as the
+    model says) as boundary classes"""
+    name = "accessors"
+    sub = "nasacc"
+    requires = ACC_REQ
+    model_check = "acc_model_check"
+    spec_check = "acc_spec_check"
+    model_out = "acc_spec_expect"      # shown as "expected" in a replay: what the table says
+    case_type = "acc_case"
+    shard = 450
+
+    def values(self, rng, kind, room, tier):
+        code, a, b, c = kind
+        if code in (0, 1):
+            w = (b - c + 1) if code == 0 else b
+            top = (1 << w) - 1
+            vs = [0, top, 1, 1 << (w - 1), 0x5555 & top, 0xAAAA & top] + [rng.below(top + 1) for _ in range(1 if tier == "quick" else 4)]
+            out = []
+            for v in vs:
+                if v not in out:
+                    out.append(v)
+            return out
+        n = b if code == 2 else room - a
+        vs = [bytes(n), bytes([0xFF]) * n, bytes((i + 1) & 0xFF for i in range(n))] + [rng.bytes(n) for _ in range(1 if tier == "quick" else 3)]
+        out = []
+        for v in vs:
+            if v not in out:
+                out.append(v)
+        return out
+
+    def generate(self, rng, tier):
+        tab = load_acc_table()
+        cs = []
+        for ty, t in tab.items():
+            ckind, n = t["container"]
+            need = max(acc_need(f["kind"]) for f in t["fields"])
+            size = {"octet": 1, "array": n}.get(ckind, need + (3 if any(f["kind"][0] == 3 for f in t["fields"]) else 0))
+            if ckind == "array" and need > n:
+                size = n          # the conformance check reports it; keep the harness callable
+            zeros, ones = bytes(size), bytes([0xFF]) * size
+            for f in t["fields"]:
+                kind = f["kind"]
+                if acc_need(kind) > size:
+                    continue
+                cls = {0: "bits%d" % (kind[2] - kind[3] + 1), 1: "span%d" % kind[2], 2: "octets", 3: "rest"}[kind[0]]
+                vals = self.values(rng, kind, size, tier)
+                for st in (zeros, ones):
+                    for v in vals:
+                        cs.append({"type": ty, "state": st, "ops": [(f["set"], v)], "gets": [f["get"]], "cls": "single/" + cls})
+                for _ in range(1 if tier == "quick" else 4):
+                    cs.append({"type": ty, "state": rng.bytes(size), "ops": [(f["set"], rng.choice(vals))], "gets": [f["get"]], "cls": "single/" + cls})
+                cs.append({"type": ty, "state": rng.bytes(size), "ops": [], "gets": [f["get"]], "cls": "get-only"})
+                if kind[0] == 0 and kind[2] - kind[3] + 1 < 8:
+                    # wider than the field: the table says nothing, the setter must mask (model)
+                    cs.append({"type": ty, "state": rng.choice([zeros, ones]), "ops": [(f["set"], 0xFF)], "gets": [f["get"]], "cls": "oversize-argument"})
+                if ckind == "buffer" and acc_need(kind) > 0 and kind[0] != 3:
+                    short = acc_need(kind) - 1
+                    cs.append({"type": ty, "state": rng.bytes(short), "ops": [(f["set"], vals[-1])], "gets": [], "cls": "short-buffer"})
+                    cs.append({"type": ty, "state": rng.bytes(short), "ops": [], "gets": [f["get"]], "cls": "short-buffer"})
+            # all fields of the value at once, pairwise different arguments; numeric fields first differ from their neighbours
+            flds = [f for f in t["fields"] if acc_need(f["kind"]) <= size]
+            for st in (zeros, ones, rng.bytes(size)):
+                for order in (flds, flds[::-1]):
+                    ops = []
+                    for i, f in enumerate(order):
+                        kind = f["kind"]
+                        if kind[0] in (0, 1):
+                            w = (kind[2] - kind[3] + 1) if kind[0] == 0 else kind[2]
+                            v = (rng.below(1 << w) if st is not zeros and st is not ones else (0x11 * (i + 1) + (i & 1) * 0xA5)) & ((1 << w) - 1)
+                        else:
+                            k = kind[2] if kind[0] == 2 else size - kind[1]
+                            v = bytes((0x10 * (i + 1) + j) & 0xFF for j in range(k)) if st is zeros else rng.bytes(k)
+                        ops.append((f["set"], v))
+                    cs.append({"type": ty, "state": st, "ops": ops, "gets": [f["get"] for f in flds], "cls": "sequence"})
+        return cs
+
+    def go_case(self, c):
+        return {"type": c["type"], "state": bytes(c["state"]).hex(), "gets": c["gets"], "_cls": c["cls"],
+                "ops": [{"set": nm, "n": v} if isinstance(v, int) else {"set": nm, "b": bytes(v).hex()} for nm, v in c["ops"]]}
+
+    def from_replay(self, c):
+        return {"type": c["type"], "state": bytes.fromhex(c["state"]), "gets": c["gets"], "cls": c.get("_cls", "replay"),
+                "ops": [(o["set"], o["n"] if "n" in o else bytes.fromhex(o["b"])) for o in c["ops"]]}
+
+    def classify(self, c, o):
+        return c["cls"]
+
+    def cval(self, v):
+        return "inl %d" % v if isinstance(v, int) else "inr %s" % C.cN(v)
+
+    def coq_case(self, c, o):
+        if "after" in o:
+            gets = [g["n"] if "n" in g else bytes.fromhex(g["b"]) for g in o["gets"]]
+            obs = "Some (%s, [%s])" % (C.cN(bytes.fromhex(o["after"])), "; ".join(self.cval(g) for g in gets))
+        else:
+            obs = "None"
+        return '("%s"%%string, %s, [%s], [%s], %s)' % (
+            c["type"], C.cN(c["state"]), "; ".join('("%s"%%string, %s)' % (nm, self.cval(v)) for nm, v in c["ops"]),
+            "; ".join('"%s"%%string' % g for g in c["gets"]), obs)
+
+    def direct_check(self, c, o):
+        if "harness_error" in o or ("panic" in o and str(o["panic"]).startswith("harness:")):
+            return "the harness could not make the call: %s" % (o.get("panic") or o.get("harness_error"))
+        return None
+
+    def known(self, c, o):
+        """SetAMFSetID of the three GUTI/TMSI types clears the AMF pointer: a failing case falls under the finding when what the
+        library did is exactly the table's semantics plus that clearing"""
+        if o is None or "after" not in o or not any(nm == "SetAMFSetID" for nm, _ in c["ops"]):
+            return None
+        t = load_acc_table().get(c["type"])
+        if t is None or (c["type"], "AMF Set ID") not in ACC_DEVIATIONS:
+            return None
+        by_set = {f["set"]: f for f in t["fields"]}
+        st = bytes(c["state"])
+        try:
+            for nm, v in c["ops"]:
+                st = acc_table_apply(st, by_set[nm]["kind"], v)
+                if nm == "SetAMFSetID":
+                    j = by_set[nm]["kind"][1] + 1
+                    st = st[:j] + bytes([st[j] & 0xC0]) + st[j + 1:]
+        except (KeyError, IndexError, TypeError, ValueError):
+            return None
+        return ACC_KEY if st.hex() == o["after"] else None
+
+
 class C09(Check):
     pid = "C09"
     prop_files = ["Properties/C09.v"]
-    extra_targets = ["Model/NasCorr.vo", "Model/NasLayout.vo", "Model/NasRefCorr.vo"]
-    streams = [Ctor(), Ctor(dev=True), RefEnc(), RefEnc(dev=True)]
+    extra_targets = ["Model/NasCorr.vo", "Model/NasLayout.vo", "Model/NasRefCorr.vo", "Model/NasAccCheck.vo"]
+    streams = [Ctor(), Ctor(dev=True), RefEnc(), RefEnc(dev=True), Acc()]
     trusted = ["Coq 8.16.1 kernel incl. vm_compute (no native_compute)", "no axioms (Print Assumptions: closed under the global context)",
                "Spec/TS24501Tables.v: TS 24.501 Rel-15 tables 8.2.x/8.3.x transcribed from memory (rows marked uncertain are not compared)",
                "translator harness/gen_nas.go and the interpreter semantics of Model/NasCodec.v (tied by C08's streams)",
-               "Go harness cmd_nas.go (nasctor, nasdec)"]
+               "Go harness cmd_nas.go (nasctor, nasdec), cmd_nasacc.go (nasacc: reflection calls of the real accessors)",
+               "Spec/TS24501Fields.v: field layouts of TS 24.501 clause 9 transcribed from memory (fields I was not sure of are left out and listed there)",
+               "translator harness/gen_nasacc.go and the descriptor semantics of Model/NasAcc.v (tied by the accessors stream)"]
     assumptions = ["uncertain rows (Release-15 version differences) are outside the comparison: REGISTRATION REQUEST 8- and 60, REGISTRATION ACCEPT D- and 60, "
                    "PDU SESSION MODIFICATION COMMAND 7F/75",
                    "SecurityProtected5GSNASMessage (8.2.28) is not dispatched by PlainNasEncode/Decode and is not compared",
-                   "intended values of the constructors are those documented next to each case in vlib/props/C09.py (TS 24.501 9.11 encodings of the arguments)"]
+                   "intended values of the constructors are those documented next to each case in vlib/props/C09.py (TS 24.501 9.11 encodings of the arguments)",
+                   "sub-field layer: IE types of the 16 messages on the emulator's path; DNN (string conversion) and MaximumNumberOfSupportedPacketFilters (layout not "
+                   "remembered with certainty) are not tabulated; a Buffer is taken with len = cap"]
 
     def regen(self, harness):
         K.load_desc(harness)
         changed = []
         if gen.run_translator(harness, "gen-nas", "NasDesc.v", ("coq",)):
             changed.append("NasDesc.v")
+        if gen.run_translator(harness, "gen-nasacc", "NasAccessors.v", (C.REPO,)):
+            changed.append("NasAccessors.v")
         self._fresh = True
         return changed
 
@@ -397,4 +589,35 @@ class C09(Check):
                 self.violation({"theorem_or_stream": "Properties/C09.v c09_layout_follows_tables (Diag: layout_diffs)",
                                 "difference": {"epd": k[0], "message_type": k[1], "iei": k[2], "what": what},
                                 "note": "library layout differs from the TS 24.501 table; see the refenc stream replay (if any) for a concrete message",
+                                "how_to_replay": "./check C09"}, "" if self.violations else "no-failing-input-found")
+        self.extra_accessors()
+
+    def extra_accessors(self):
+        """Diag of the sub-field layer: the differences between the regenerated accessor descriptors and the field table; a
+        known one is reported as a finding, any other one is a violation (the accessors stream supplies the concrete call)."""
+        txt = ACC_HDR + ("Open Scope string_scope.\nDefinition ad := Eval vm_compute in acc_diffs.\nPrint ad.\n"
+                         "Definition an := Eval vm_compute in (length acc_types, length acc_descs, length (flat_map ie_fields ts24501_fields), "
+                         "length conforming_fields, length (filter (fun a => is_unrecognised (a_body a)) acc_descs)).\nPrint an.\n")
+        rc, out = C.coq_eval(txt, timeout=600)
+        if rc != 0:
+            raise RuntimeError("acc_diffs does not evaluate: " + out[-1500:])
+        flat = " ".join(out.split())
+        m = re.search(r"ad = (.*?) : list acc_diff", flat)
+        if not m:
+            raise RuntimeError("cannot find acc_diffs in coqc output: " + flat[-800:])
+        diffs = re.findall(r'\("((?:[^"]|"")*)"(?:%string)?, "((?:[^"]|"")*)"(?:%string)?, "((?:[^"]|"")*)"(?:%string)?\)', m.group(1))
+        if not diffs and m.group(1).strip() not in ("[]", "nil"):
+            raise RuntimeError("cannot parse acc_diffs: " + m.group(1)[:800])
+        cnt = nums(re.search(r"an = (.*?) : ", flat).group(1))
+        self.cov["accessor_layer"] = {"ie_types": cnt[0], "accessors": cnt[1], "tabulated_fields": cnt[2], "conforming_pairs": cnt[3],
+                                      "unrecognised_bodies": cnt[4], "differences": [{"type": a, "field": b, "what": c} for a, b, c in diffs]}
+        known = {f["key"]: f for f in C.known_findings() if f.get("property") == self.pid and f.get("status") == "known"}
+        for ty, fld, what in diffs:
+            key = ACC_DEVIATIONS.get((ty, fld))
+            if key and key in known:
+                self.known_finding(key, known[key]["what"])
+            else:
+                self.violation({"theorem_or_stream": "Properties/C09.v c09_accessors_address_their_fields_partial (Diag: acc_diffs)",
+                                "difference": {"type": ty, "field": fld, "what": what.replace('""', '"')},
+                                "note": "an accessor of nasType does not address the bits TS 24.501 clause 9 gives the field; see the accessors stream replay (if any) for a concrete call",
                                 "how_to_replay": "./check C09"}, "" if self.violations else "no-failing-input-found")
